@@ -168,13 +168,50 @@ def r2(ctx):
 def r3(ctx):
     repo = ctx.repo
     f = repo.func("source", "is_source_file")
-    rets = [n.value for n in walk_no_nested(f.node) if isinstance(n, ast.Return)]
-    env = {u(n.targets[0]): n.value for n in walk_no_nested(f.node) if isinstance(n, ast.Assign)}
-    ok = len(rets) == 1 and isinstance(rets[0], ast.Compare) and isinstance(rets[0].ops[0], ast.In)
-    if ok:
-        l, r = u(rets[0].left), u(rets[0].comparators[0])
-        ok = u(env.get(l, rets[0].left)) == f"Path({f.params[0]}).suffix" and isinstance(env.get(r), (ast.List, ast.Tuple, ast.Set))
-    ctx.soft(ok, "source:is_source_file:suffix-in-table", f"must return `Path(filename).suffix in <extension table>`: {[u(r) for r in rets]}", f.loc())
+    # decision table (helpers of codebasin.util interpreted in place): a name is a source file iff its LAST suffix
+    # (Path(name).suffix / os.path.splitext(name)[1]) is in the extension table
+    util = repo.mod("util")
+
+    class H(Hooks):
+        unroll = 1
+
+        def inline(self, call, ftext, st):
+            name = ftext.rsplit(".", 1)[-1]
+            if ftext in (f"util.{name}", f"codebasin.util.{name}") and name in util.functions:
+                return util.functions[name].node
+            return None
+
+    p0 = f.params[0]
+    LAST = (f"Path({p0}).suffix", f"os.path.splitext({p0})[1]", f"os.path.splitext(str({p0}))[1]", f"pathlib.Path({p0}).suffix")
+    n_t = n_f = 0
+    for p in Evaluator(H()).paths(f.node):
+        if p.result[0] == "raise" and "TypeError" in str(p.result[1]):
+            continue
+        tests = {k: v for k, v in p.atoms.items() if (" In " in k or " Eq " in k) and not k.startswith("raises(")}
+        subj = set()
+        for k in tests:
+            k2 = k
+            subj.add(k2.split(" In ", 1)[0] if " In " in k2 else next((x for x in k2.split(" Eq ") if not (x.startswith("'") or x.startswith('"'))), k2))
+        key = "source:is_source_file:suffix-in-table:" + ",".join(f"{int(v)}" for v in tests.values())
+        if not tests:
+            raise AnalysisError(f"is_source_file: no membership test on a path: {p.describe()[:160]}")
+        bad = sorted(x for x in subj if x not in LAST)
+        if bad:
+            if any(p0 in x for x in bad):
+                ctx.violation(key, f"membership is decided on `{bad[0][:80]}`, not on the last suffix of the name (`{LAST[0]}`): names with more than one dot (`msg.pb.cc`, `solver.cuda.cu`) or other spellings are classified differently from FileLanguage and from every compiler", f.loc())
+                continue
+            raise AnalysisError(f"is_source_file: test not recognised: {bad}")
+        member = any(tests.values())
+        res = p.result[1] if p.result[0] == "return" else None
+        if isinstance(res, bool):
+            ok = res is member
+        else:
+            ok = vtext(res) in list(tests)  # the membership test itself is returned
+        n_t += member
+        n_f += not member
+        ctx.check(ok, key, f"must return whether the suffix is in the table: {p.describe()[:200]}", f.loc())
+    if not (n_t and n_f):
+        raise AnalysisError(f"is_source_file: idiom not recognised (member paths {n_t}, non-member paths {n_f})")
     from .c17 import language_tables
 
     exts, ext_lang, served = language_tables(repo)
